@@ -331,7 +331,8 @@ class Normalizer(ast.NodeTransformer):
         # N24b: (t1, t2) = (E(x) for x in ITER)   (ITER not a literal)   ->   __g1, __g2 = ITER ; t1, t2 = E(__g1), E(__g2)
         if len(node.targets) == 1 and isinstance(node.targets[0], (ast.Tuple, ast.List)) \
                 and isinstance(node.value, (ast.GeneratorExp, ast.ListComp)) and len(node.value.generators) == 1 \
-                and 1 < len(node.targets[0].elts) <= MAX_ELTS and all(isinstance(t, ast.Name) for t in node.targets[0].elts):
+                and 1 < len(node.targets[0].elts) <= MAX_ELTS \
+                and all(isinstance(t, (ast.Name, ast.Tuple, ast.List)) for t in node.targets[0].elts):
             g = node.value.generators[0]
             if isinstance(g.target, ast.Name) and not g.ifs and not g.is_async \
                     and not isinstance(g.iter, (ast.Tuple, ast.List)) \
@@ -348,6 +349,28 @@ class Normalizer(ast.NodeTransformer):
                     ast.fix_missing_locations(st)
                 r2 = self.visit_Assign(second)
                 return [first] + (r2 if isinstance(r2, list) else [r2])
+        # nested destructuring of a literal of the same shape: ((a, b), (c, d)) = ((p, q), (r, s))  ->  flat
+        if len(node.targets) == 1 and isinstance(node.targets[0], (ast.Tuple, ast.List)) \
+                and isinstance(node.value, (ast.Tuple, ast.List)) and len(node.targets[0].elts) == len(node.value.elts) \
+                and any(isinstance(t, (ast.Tuple, ast.List)) for t in node.targets[0].elts):
+            ft, fv, okf = [], [], True
+            for t, v in zip(node.targets[0].elts, node.value.elts):
+                if isinstance(t, (ast.Tuple, ast.List)):
+                    if isinstance(v, (ast.Tuple, ast.List)) and len(v.elts) == len(t.elts) \
+                            and not any(isinstance(x, ast.Starred) for x in list(t.elts) + list(v.elts)):
+                        ft += list(t.elts)
+                        fv += list(v.elts)
+                    else:
+                        okf = False
+                else:
+                    ft.append(t)
+                    fv.append(v)
+            if okf and not any(isinstance(t, (ast.Tuple, ast.List)) for t in ft):
+                # throw-away targets named `_` may repeat: keep the last only makes no difference to anyone
+                node = ast.copy_location(ast.Assign(targets=[ast.Tuple(elts=ft, ctx=ast.Store())],
+                                                    value=ast.Tuple(elts=fv, ctx=ast.Load()), type_comment=None), node)
+                ast.fix_missing_locations(node)
+                self.count += 1
         if len(node.targets) == 1 and isinstance(node.targets[0], (ast.Tuple, ast.List)) \
                 and isinstance(node.value, (ast.Tuple, ast.List)) \
                 and len(node.targets[0].elts) == len(node.value.elts) \
@@ -1328,6 +1351,53 @@ def _append_loops(tree) -> int:
 
 
 
+# ---------------------------------------------------------------------------------------------- N29
+def _loops_over_comprehensions(tree) -> int:
+    """for TGT in [E(x) for x in ITER [if C(x)]]: BODY     ->     for x in ITER: [if C(x):] TGT = E(x); BODY
+    (also when the comprehension was bound to a local used by this loop only, directly before it)"""
+    count = 0
+    for parent in ast.walk(tree):
+        for fld in ('body', 'orelse', 'finalbody'):
+            blk = getattr(parent, fld, None)
+            if not (isinstance(blk, list) and blk and isinstance(blk[0], ast.stmt)):
+                continue
+            i = 0
+            while i < len(blk):
+                st = blk[i]
+                if isinstance(st, ast.For) and not st.orelse:
+                    comp = st.iter if isinstance(st.iter, (ast.ListComp, ast.GeneratorExp)) else None
+                    drop_prev = False
+                    if comp is None and isinstance(st.iter, ast.Name) and i > 0 and isinstance(blk[i - 1], ast.Assign) \
+                            and len(blk[i - 1].targets) == 1 and isinstance(blk[i - 1].targets[0], ast.Name) \
+                            and blk[i - 1].targets[0].id == st.iter.id and isinstance(blk[i - 1].value, (ast.ListComp, ast.GeneratorExp)):
+                        fn_nodes = [x for x in ast.walk(tree) if isinstance(x, ast.Name) and x.id == st.iter.id]
+                        if len(fn_nodes) == 2:
+                            comp, drop_prev = blk[i - 1].value, True
+                    if comp is not None and len(comp.generators) == 1 and not comp.generators[0].is_async \
+                            and isinstance(comp.generators[0].target, ast.Name) \
+                            and not any(isinstance(x, (ast.NamedExpr, ast.Lambda, ast.Yield, ast.Await)) for x in ast.walk(comp)) \
+                            and not any(isinstance(x, (ast.Break, ast.Continue)) for b in st.body for x in ast.walk(b)):
+                        g = comp.generators[0]
+                        bind = ast.Assign(targets=[st.target], value=comp.elt, type_comment=None)
+                        inner = [bind] + st.body
+                        if g.ifs:
+                            tst = g.ifs[0] if len(g.ifs) == 1 else ast.BoolOp(op=ast.And(), values=list(g.ifs))
+                            inner = [ast.If(test=tst, body=inner, orelse=[])]
+                        new = ast.For(target=ast.Name(id=g.target.id, ctx=ast.Store()), iter=g.iter, body=inner, orelse=[],
+                                      type_comment=None)
+                        ast.copy_location(new, st)
+                        ast.fix_missing_locations(new)
+                        if drop_prev:
+                            blk[i - 1:i + 1] = [new]
+                            i -= 1
+                        else:
+                            blk[i] = new
+                        count += 1
+                        continue
+                i += 1
+    return count
+
+
 # ---------------------------------------------------------------------------------------------- N27
 def _filtered_literal_lists(tree) -> int:
     """L = [t for t in (A, B) if C(t)]  used only as `if not L` / `if L` tests and `for v in L:` loops
@@ -1627,6 +1697,7 @@ def normalize(tree: ast.Module, inline: bool = True) -> ast.Module:
         from .inline import inline_helpers
         ninl = inline_helpers(tree)
     ninl += _filtered_literal_lists(tree)
+    ninl += _loops_over_comprehensions(tree)
     nfold = _fold_named_constants(tree)
     nfold += _unfold_partials(tree)
     nfold += _fold_literal_zip(tree)
